@@ -318,9 +318,18 @@ void SDMXylm_loop(int ngrids, double *ylm_lg, double *coords, int *ylm_atom_loc,
                     rnorm = sqrt(norm_rvec[0] * norm_rvec[0] +
                                  norm_rvec[1] * norm_rvec[1] +
                                  norm_rvec[2] * norm_rvec[2]);
-                    norm_rvec[0] /= rnorm;
-                    norm_rvec[1] /= rnorm;
-                    norm_rvec[2] /= rnorm;
+                    if (rnorm > 0) {
+                        norm_rvec[0] /= rnorm;
+                        norm_rvec[1] /= rnorm;
+                        norm_rvec[2] /= rnorm;
+                    } else {
+                        // grid point on the nucleus: r^l Y_lm vanishes for
+                        // l > 0 and is direction-independent for l = 0,
+                        // so any unit vector gives the correct limit.
+                        norm_rvec[0] = 0.0;
+                        norm_rvec[1] = 0.0;
+                        norm_rvec[2] = 1.0;
+                    }
                     recursive_sph_harm(sblist[ia], norm_rvec, buf);
                     rpow = 1.0;
                     lm = 0;
